@@ -17,11 +17,11 @@ META = dict(
     level="exploration",
     design_ref="DESIGN.md §5 C36",
     technique="reference-model monitor on real archives: write through EKO.create/build/__setitem__, close, EKO.read, EKO.edit sessions; every re-read compared with an independent dict model (key set by float.hex, sha256 of array bytes, cards, metadata)",
-    level_text="Randomised exploration of archive contents (0-6 evolution points, shapes up to 14x8x14x8, special float values incl. -0.0/inf/nan payloads, scales as Python float / NumPy float64 taken from the card's own grid / int / 1-ulp neighbours, NumPy flavour numbers, with and without errors, F-ordered arrays, random cards) and of edit sessions. Each archive is really written to disk and read back by the real code.",
+    level_text="Randomised exploration of archive contents (0-6 evolution points, shapes up to 14x8x14x8, special float values incl. -0.0/inf/nan payloads, scales as Python float / NumPy float64 taken from the card's own grid / int / 1-ulp neighbours / equal scales with different nf, NumPy flavour numbers, with and without errors, F-ordered arrays, random cards) and of edit sessions. Each archive is really written to disk and read back by the real code.",
     level_note="Trusted base: numpy tobytes/sha256, the reference model in vlib/oracles/storemodel.py, my generators of valid runcards. Squared operator shapes only (EKO.load refuses others by design).",
     rule="case = one archive life (create, close, read, 0-2 edit sessions with re-read); distinct by the seed index; non-trivial = at least one operator stored and at least one special value, NumPy-typed key or edit session involved",
     min_nontrivial=60,
-    required_hits=["archive_read_back", "arrays_compared", "cards_compared", "metadata_compared", "edit_sessions", "numpy_scalar_keys", "ulp_neighbours", "special_values"],
+    required_hits=["archive_read_back", "arrays_compared", "cards_compared", "metadata_compared", "edit_sessions", "numpy_scalar_keys", "ulp_neighbours", "same_scale_other_nf", "special_values"],
     max_inconclusive_frac=0.05,
 )
 
@@ -118,11 +118,11 @@ def classify_exc(e, stage):
 def _make_keys(rng, opc, nkeys):
     """Evolution points as the user might pass them: mixed python / numpy number types."""
     keys = []
-    flags = dict(numpy=0, ulp=0, int=0)
+    flags = dict(numpy=0, ulp=0, int=0, same_scale=0)
     mu2 = opc.mu2grid  # numpy array of the card's own squared scales
     evol = opc.evolgrid
     while len(keys) < nkeys:
-        c = int(rng.integers(6))
+        c = int(rng.integers(7))
         nf = int(rng.integers(3, 7))
         if c == 0:
             ep = (float(rng.uniform(1.0, 1e5)), nf)
@@ -136,11 +136,16 @@ def _make_keys(rng, opc, nkeys):
         elif c == 3:
             ep = (float(rng.uniform(1.0, 1e5)), np.int64(nf))
             flags["numpy"] += 1
-        elif c == 4 and keys:
+        elif c in (4, 6) and keys:
             base = keys[int(rng.integers(len(keys)))]
             s = float(base[0])
-            ep = (float(np.nextafter(s, math.inf)), int(base[1]))
-            flags["ulp"] += 1
+            if rng.random() < 0.5:
+                ep = (float(np.nextafter(s, math.inf)), int(base[1]))
+                flags["ulp"] += 1
+            else:
+                others = [f for f in (3, 4, 5, 6) if f != int(base[1])]
+                ep = (base[0], others[int(rng.integers(3))])
+                flags["same_scale"] += 1
         else:
             i = int(rng.integers(len(evol)))
             ep = (evol[i][0], evol[i][1])
@@ -249,6 +254,8 @@ def _life(rng, rec, work, seed, idx):
         hit("ulp_neighbours", flags["ulp"])
     if flags["int"]:
         hit("int_scale_keys", flags["int"])
+    if flags["same_scale"]:
+        hit("same_scale_other_nf", flags["same_scale"])
 
     def verify(stage):
         """Re-read the archive and compare everything with the model's persisted copy."""
@@ -263,16 +270,16 @@ def _life(rng, rec, work, seed, idx):
                     try:
                         o = e[k]
                     except Exception as ex:
-                        fail(classify_exc(ex, stage + "-get"), f"reading {k} raised {type(ex).__name__}: {str(ex)[:200]}", key=k, **desc)
+                        fail(classify_exc(ex, stage + "-get"), f"reading {k} raised {type(ex).__name__}: {str(ex)[:200]}", ep=k, **desc)
                         continue
                     hit("arrays_compared")
                     g = sm.vdigest(o.operator, o.error)
                     if (g[1] is None) != (dig[1] is None):
-                        fail(f"C36/{stage}/error-presence", f"{k}: error array {'appeared' if dig[1] is None else 'vanished'}", key=k, **desc)
+                        fail(f"C36/{stage}/error-presence", f"{k}: error array {'appeared' if dig[1] is None else 'vanished'}", ep=k, **desc)
                     elif g[0] != dig[0]:
-                        fail(f"C36/{stage}/array/operator", f"{k}: operator bytes differ: {g[0]} vs written {dig[0]}", key=k, **desc)
+                        fail(f"C36/{stage}/array/operator", f"{k}: operator bytes differ: {g[0]} vs written {dig[0]}", ep=k, **desc)
                     elif g[1] != dig[1]:
-                        fail(f"C36/{stage}/array/error", f"{k}: error bytes differ: {g[1]} vs written {dig[1]}", key=k, **desc)
+                        fail(f"C36/{stage}/array/error", f"{k}: error bytes differ: {g[1]} vs written {dig[1]}", ep=k, **desc)
                 if rng.random() < 0.5:
                     seen = {}
                     for ep, o in e.items():
